@@ -164,6 +164,26 @@ def symarr(name, shape):
     return a.view(SymArray)
 
 
+def _lex_lt(r1, r2):
+    for x, y in zip(r1, r2):
+        if bool(x < y):
+            return True
+        if not bool(x == y):
+            return False
+    return False
+
+
+def _sym_sorted(items, lt):
+    """stable insertion sort; `lt` decides (and thereby forks on) each comparison"""
+    out = []
+    for it in items:
+        pos = len(out)
+        while pos > 0 and lt(it, out[pos - 1]):
+            pos -= 1
+        out.insert(pos, it)
+    return out
+
+
 def _full(shape, val):
     a = _np.empty(shape, dtype=object)
     c = const(val)
@@ -511,12 +531,37 @@ class NP:
 
     def unique(self, a, *args, **k):
         if has_sym(a):
-            raise Unsupported("unique on symbolic")
+            # rows of a 2-d array of terms (axis=0): lexicographic order and equality of rows are solver-decided branches
+            if args or k.get("axis") != 0 or _np.ndim(a) != 2 or set(k) - {"axis", "return_counts"}:
+                raise Unsupported("unique on symbolic")
+            rows = _sym_sorted([tuple(r) for r in _np.asarray(a)], _lex_lt)
+            uniq, counts = [], []
+            for r in rows:
+                if uniq and all(bool(x == y) for x, y in zip(uniq[-1], r)):
+                    counts[-1] += 1
+                else:
+                    uniq.append(r)
+                    counts.append(1)
+            u = _np.empty((len(uniq), _np.shape(a)[1]), dtype=object)
+            for i, r in enumerate(uniq):
+                for j, x in enumerate(r):
+                    u[i, j] = x
+            u = u.view(SymArray)
+            return (u, _np.array(counts, dtype=int)) if k.get("return_counts") else u
         return _np.unique(a, *args, **k)
 
     def sort(self, a, *args, **k):
         if has_sym(a):
-            raise Unsupported("sort on symbolic")
+            # every comparison is a solver-decided branch
+            if args or set(k) - {"axis"}:
+                raise Unsupported("sort on symbolic")
+            axis = k.get("axis", -1)
+            b = _np.moveaxis(_np.array(a, dtype=object), axis, -1)
+            out = _np.empty(b.shape, dtype=object)
+            for idx in _np.ndindex(*b.shape[:-1]):
+                for j, x in enumerate(_sym_sorted(list(b[idx]), lambda x, y: bool(x < y))):
+                    out[idx + (j,)] = x
+            return _np.moveaxis(out, -1, axis).view(SymArray)
         return _np.sort(a, *args, **k)
 
     def argsort(self, a, *args, **k):
